@@ -574,6 +574,7 @@ func checkC08(w *World, r *Report) {
 	checkDecimalLiterals(w, r)
 	checkExpressionShortcuts(w, r)
 	checkExpressionTextIsSource(w, r, "R08.14")
+	checkOperandsNotPromoted(w, r)
 	checkNumberFormatting(w, r)
 	checkMembershipEquality(w, r, evalCases)
 	checkRelationalNumericFirst(w, r, evalCases)
@@ -1549,4 +1550,129 @@ func checkExpressionTextIsSource(w *World, r *Report, rule string) {
 		})
 	}
 	r.floor("texts handed to the expression tokenizer / token values", n, 20)
+}
+
+// checkOperandsNotPromoted — R08.15: an operator node is never replaced by its operand without
+// looking at the operator.  A function that reads the operand of a UnaryNode (or an operand of a
+// BinaryNode) and lets it flow into another node (a constructor argument, a node field, a
+// returned Node) also reads that node's operator — itself or through a helper it hands the node
+// to.  `not c ? a : b` → `c ? b : a` written as "condition is a *UnaryNode" rewrites `-x ? a : b`
+// the same way; the expression then means something else in a conditional than elsewhere.
+func checkOperandsNotPromoted(w *World, r *Report) {
+	n := 0
+	operandOf := func(u *ssa.UnOp) (ssa.Value, string, bool) {
+		if u.Op != token.MUL {
+			return nil, "", false
+		}
+		fa, ok := u.X.(*ssa.FieldAddr)
+		if !ok {
+			return nil, "", false
+		}
+		t, f := fieldOfAddr(fa)
+		if (t == "UnaryNode" && f == "node") || (t == "BinaryNode" && (f == "left" || f == "right")) {
+			return fa.X, t + "." + f, true
+		}
+		return nil, "", false
+	}
+	loadsOperator := func(g *ssa.Function) bool {
+		found := false
+		instrsOf(g, func(in ssa.Instruction) {
+			if u, ok := in.(*ssa.UnOp); ok && u.Op == token.MUL {
+				if fa, ok := u.X.(*ssa.FieldAddr); ok {
+					if t, f := fieldOfAddr(fa); (t == "UnaryNode" || t == "BinaryNode") && f == "operator" {
+						found = true
+					}
+				}
+			}
+		})
+		return found
+	}
+	for _, fn := range w.pkgFuncs() {
+		instrsOf(fn, func(in ssa.Instruction) {
+			u, ok := in.(*ssa.UnOp)
+			if !ok {
+				return
+			}
+			base, what, ok := operandOf(u)
+			if !ok {
+				return
+			}
+			// does the operand flow into another node?
+			into := ""
+			seen := map[ssa.Value]bool{}
+			var flow func(v ssa.Value, d int)
+			flow = func(v ssa.Value, d int) {
+				if seen[v] || d > 6 || into != "" || v.Referrers() == nil {
+					return
+				}
+				seen[v] = true
+				for _, ref := range *v.Referrers() {
+					switch x := ref.(type) {
+					case *ssa.Phi:
+						flow(x, d+1)
+					case *ssa.MakeInterface:
+						flow(x, d+1)
+					case *ssa.ChangeInterface:
+						flow(x, d+1)
+					case *ssa.Store:
+						if x.Val != v {
+							continue
+						}
+						if fa, ok := x.Addr.(*ssa.FieldAddr); ok {
+							if t, f := fieldOfAddr(fa); w.isNodeStruct(t) {
+								into = "field " + t + "." + f
+							}
+						} else if al, ok := x.Addr.(*ssa.Alloc); ok {
+							// spilled local: follow its loads
+							if al.Referrers() != nil {
+								for _, r2 := range *al.Referrers() {
+									if l, ok := r2.(*ssa.UnOp); ok && l.Op == token.MUL {
+										flow(l, d+1)
+									}
+								}
+							}
+						}
+					case *ssa.Return:
+						into = "the returned node"
+					case ssa.CallInstruction:
+						if g := x.Common().StaticCallee(); g != nil && isTwigFn(g) && strings.HasPrefix(g.Name(), "New") {
+							into = "an argument of " + g.Name()
+						}
+					}
+				}
+			}
+			flow(u, 0)
+			if into == "" {
+				return
+			}
+			n++
+			construct := what + " flows into " + into
+			// operator read on the same node here, or in a helper the node is handed to
+			reads := false
+			instrsOf(fn, func(in2 ssa.Instruction) {
+				if l, ok := in2.(*ssa.UnOp); ok && l.Op == token.MUL {
+					if fa, ok := l.X.(*ssa.FieldAddr); ok {
+						if _, f := fieldOfAddr(fa); f == "operator" && sameValue(origin(fa.X), origin(base)) {
+							reads = true
+						}
+					}
+				}
+				if c, ok := in2.(ssa.CallInstruction); ok {
+					if g := c.Common().StaticCallee(); g != nil && isTwigFn(g) && len(g.Blocks) > 0 && loadsOperator(g) {
+						for _, a := range c.Common().Args {
+							if sameValue(origin(a), origin(base)) {
+								reads = true
+							}
+						}
+					}
+				}
+			})
+			if reads {
+				r.ok("R08.15", ssaName(fn), construct, w.posOf(u.Pos()), "the operator of the same node is read", true)
+			} else {
+				r.bad("R08.15", ssaName(fn), construct, w.posOf(u.Pos()), "the operand takes the place of the operator node although the operator is never looked at: every unary (binary) operator is treated like the one the rewrite had in mind, so `-x` or `+x` in this position is handled as if it were `not x`")
+			}
+		})
+	}
+	r.Counts["operands of operator nodes flowing into other nodes"] = n
 }
